@@ -1,5 +1,6 @@
 import P2PVerif.Model.Stack
 import P2PVerif.Lemmas.Stack
+import P2PVerif.Lemmas.SrcVec
 /-! # C01 — every swarm delivers exactly what was told, to whom it was told
 Property theorems only. The framing layers (fragmenting swarm, every multiplexer kind) are composed to ANY
 nesting depth (`Stack`, induction over the list of layers) over a base swarm; what the receiving stack hands up
@@ -38,5 +39,13 @@ example :
     (encode s 40 [0, 7, 0] (List.range 60)).map (fun r => r.1.length) = some 3 ∧
     ((encode s 40 [0, 7, 0] (List.range 60)).map (fun r => (recvAll s (init s) 1 r.1).2)) = some [List.range 60] := by
   decide +kernel
+
+/-- ⊢ regenerated gather: `p2p.VecBytes`, REGENERATED from swarm.go — the routine every layer uses to turn the
+    told vector into the bytes it frames — appends exactly the concatenation of the segments, in order, after
+    what `out` already held: nothing dropped, repeated or reordered, and what `out` held is kept. -/
+theorem src_VecBytes_is_concatenation (out : Go.Bytes) (v : List Go.Bytes) :
+    Src.p2p.VecBytes out v = .ok (out ++ v.flatten) := Src.VecBytes_eq out v
+
+example : Src.p2p.VecBytes [9] [[1, 2], [], [3]] = .ok [9, 1, 2, 3] := rfl
 
 end P2PVerif.C01
